@@ -532,6 +532,8 @@ val hex4 : n -> n -> n -> n -> n
 
 val has_rbrace : n list -> bool
 
+val py_lit : bool -> n list -> pyres
+
 val py_text : n list -> pyres
 
 val py_bytes : n list -> pyres
